@@ -63,3 +63,41 @@ theorem restart_noiter_same_pairs (u : User K ε) (o : Oracles K δ) (c : Cfg K)
       exact (restore_keeps_most_recent _ ck.jac ck.sk ck.yk c.maxcor c.epsSY hs hy hlen hne (hcurv hne)).2.1
 
 end Lbfgsb.C06
+
+/-! ### Non-vacuity (ℚ): f(x) = ½|x|² on [−2,2]², a checkpoint after two iterations carrying two pairs,
+restarted with `maxiter = 2 ≤ nit`: the hypotheses hold and the model run terminates normally. -/
+namespace Lbfgsb.C06
+open Lbfgsb
+section nonvacuous
+attribute [local instance] fieldFloatLike
+
+def exUser : User ℚ Unit :=
+  { F := fun x => .ok (dot x x / 2), Gr := fun x => .ok x, fdPts := fun _ _ => [], fdComb := fun x _ _ => x,
+    callback := fun _ => .ok false, update := fun i => .ok ⟨i.f0, i.f0Old, i.grad, i.G⟩,
+    scaler := fun _ _ => .ok 1, ftargetFn := fun _ => .ok 0, gtolFn := fun _ => .ok 0 }
+
+def exOracles : Oracles ℚ Unit := { xbar := fun x _ _ => x, dcNew := fun _ _ _ _ _ _ => (), dcIter := fun _ s _ _ _ => ((), s, .error) }
+
+def exCk : Result ℚ :=
+  { x := [1 / 4, 1 / 4], f := 1 / 16, jac := [1 / 4, 1 / 4], nfev := 3, njev := 3, nit := 2, status := 1, msg := .iterLimit,
+    success := true, sk := [[-1, -1], [-3 / 4, -3 / 4]], yk := [[-1, -1], [-3 / 4, -3 / 4]] }
+
+def exCfg : Cfg ℚ :=
+  { x0 := [1 / 4, 1 / 4], lb := [-2, -2], ub := [2, 2], mode := .callable, maxcor := 5, maxiter := 2, maxfun := 100, maxls := 20,
+    ftol := 0, gtol := .const (1 / 1000), ftarget := none, maxStep := 100, ftolLS := 1 / 1000, gtolLS := 9 / 10, xtolLS := 1 / 10,
+    epsSY := 0, hasCallback := false, hasUpdate := false, hasScaler := false, checkpoint := some exCk }
+
+example : (minimize exUser exOracles exCfg).toBool = true := by decide +kernel
+
+/-- the curvature hypothesis of the theorem holds on this instance -/
+example : curvOk (clip exCfg.x0 exCfg.lb exCfg.ub) exCk.jac
+    (lastD (restoreXG (clip exCfg.x0 exCfg.lb exCfg.ub) exCk.jac exCk.sk exCk.yk exCfg.maxcor).1)
+    (lastD (restoreXG (clip exCfg.x0 exCfg.lb exCfg.ub) exCk.jac exCk.sk exCk.yk exCfg.maxcor).2) exCfg.epsSY = true := by
+  decide +kernel
+
+/-- … and the run returns the checkpoint's pairs -/
+example : (match minimize exUser exOracles exCfg with | .ok (r, _) => decide (r.sk = exCk.sk ∧ r.yk = exCk.yk) | .error _ => false) = true := by
+  decide +kernel
+
+end nonvacuous
+end Lbfgsb.C06
